@@ -110,7 +110,28 @@ def replay(rec):
     saved = ec.known_keys
     ec.known_keys = lambda pid: set()
     try:
-        return body(rec["p"][0], rec["p"][1])
+        # the enumeration runs many tables in one process: a failure may need an earlier call (state kept between calls).  The table is
+        # evaluated alone and after every 2-atom table of the family as predecessor, each time in a forked copy of this fresh interpreter.
+        import os
+
+        def forked(pred):
+            pid = os.fork()
+            if pid == 0:
+                try:
+                    if pred is not None:
+                        body(pred[0], pred[1])
+                    os._exit(0 if body(rec["p"][0], rec["p"][1]) else 1)
+                except BaseException:  # noqa: BLE001
+                    os._exit(2)
+            return os.waitpid(pid, 0)[1] >> 8
+        if forked(None) == 1:
+            return False
+        cands, _, _ = inputs(2)
+        for t, sb in cands:
+            if forked((t, sb)) == 1:
+                print("fails after an earlier call on", [list(x) for x in t], "serial base", SERIAL_BASE[sb])
+                return False
+        return True
     finally:
         ec.known_keys = saved
 
@@ -159,4 +180,6 @@ def run(rep, tier):
             engines=["z3 AllSAT over the table formula (concretising mode); native execution with real pandas and mmcif"], exhaustive=True,
             rule="states = distinct tables (AllSAT models); transitions = executions + AllSAT queries; obligation = family",
             stubs=[])
+    rep.assume("every table is fitted in a process that has fitted other tables before (pool workers); a counterexample is replayed in a fresh interpreter, "
+               "alone and after every 2-atom table of the family as predecessor")
     rep.assume("partial: the renaming half on small tables; a ValueError on a 2-4 atom table counts as a violation (such a table always has a fit)")
